@@ -452,22 +452,11 @@ def _position_finder(x_matrix):
     :return: list of qubit positions to apply the Hadamard on
     :rtype: list
     """
-    pivot = [0, 0]
-    n = x_matrix.shape[0]
-    pos_list = []
-    while pivot[0] < n and pivot[1] < n:
-        try:
-            if x_matrix[pivot[0] + 1, pivot[1]] == 1:
-                pivot = [pivot[0] + 1, pivot[1]]
-            if x_matrix[pivot[0] + 1, pivot[1] + 1] == 1:
-                pivot = [pivot[0] + 1, pivot[1] + 1]
-            else:
-                pivot = [pivot[0], pivot[1] + 1]
-                pos_list.append(pivot[1])
-        except:
-            break
-
-    return pos_list
+    # x_matrix is in row echelon form: the Hadamard gates go on the columns that carry no pivot (leading one),
+    # which makes the X part of the generators full rank
+    n = x_matrix.shape[1]
+    pivot_columns = [int(np.nonzero(row)[0][0]) for row in x_matrix if np.any(row)]
+    return [column for column in range(n) if column not in pivot_columns]
 
 
 def _graph_finder(x_matrix, z_matrix, get_ops_data=False):
